@@ -61,19 +61,31 @@ def strip_comments(src):
     return ''.join(out)
 
 
-def grep_forbidden():
-    """forbidden tokens outside comments in all project .lean files"""
-    hits = []
-    for dp, dn, fn in os.walk(LEAN_DIR):
-        if '.lake' in dp:
+def project_modules():
+    """files reachable by `import EAO.…` from the library root and the driver (what `lake build` builds)"""
+    seen, todo = set(), ['EAO.lean', 'Main.lean']
+    while todo:
+        f = todo.pop()
+        p = os.path.join(LEAN_DIR, f)
+        if f in seen or not os.path.exists(p):
             continue
-        for f in fn:
-            if f.endswith('.lean'):
-                p = os.path.join(dp, f)
-                src = strip_comments(open(p).read())
-                for ln, line in enumerate(src.split('\n'), 1):
-                    if _FORBIDDEN.search(line):
-                        hits.append('%s:%d: %s' % (os.path.relpath(p, LEAN_DIR), ln, line.strip()[:120]))
+        seen.add(f)
+        for line in strip_comments(open(p).read()).split('\n'):
+            m = re.match(r'\s*import\s+(EAO(\.[A-Za-z0-9_]+)*)\s*$', line)
+            if m:
+                todo.append(m.group(1).replace('.', '/') + '.lean')
+    return sorted(seen)
+
+
+def grep_forbidden():
+    """forbidden tokens outside comments in all .lean files that are part of the build"""
+    hits = []
+    for f in project_modules():
+        p = os.path.join(LEAN_DIR, f)
+        src = strip_comments(open(p).read())
+        for ln, line in enumerate(src.split('\n'), 1):
+            if _FORBIDDEN.search(line):
+                hits.append('%s:%d: %s' % (f, ln, line.strip()[:120]))
     return hits
 
 
